@@ -713,6 +713,10 @@ def is_pathlike(typehint) -> bool:
     return is_subclass(typehint, os.PathLike)
 
 
+def is_literal_member(val, members) -> bool:
+    return any(type(val) is type(member) and val == member for member in members)
+
+
 def raise_unexpected_value(message: str, val: Any = inspect._empty, exception: Optional[Exception] = None) -> NoReturn:
     if val is not inspect._empty:
         message += f". Got value: {val}"
@@ -771,10 +775,10 @@ def adapt_typehints(
 
     # Literal
     elif typehint_origin in literal_types:
-        if val not in subtypehints and isinstance(val, str):
+        if not is_literal_member(val, subtypehints) and isinstance(val, str):
             subtypes = Union[tuple({type(v) for v in subtypehints if type(v) is not str})]
             val = adapt_typehints(val, subtypes, **adapt_kwargs)
-        if val not in subtypehints:
+        if not is_literal_member(val, subtypehints):
             raise_unexpected_value(f"Expected a {typehint}", val)
 
     # Basic types
